@@ -110,6 +110,11 @@ def PTx.cost (p : PTx) : Nat := p.fee + p.amount.getD 0
 /-- TxData.EffectiveGasPrice(baseFee) -/
 def PTx.effectiveGasPrice (p : PTx) (baseFee : Nat) : Nat :=
   if p.typ = 2 then min (p.gasTipCap.getD 0 + baseFee) (p.gasFeeCap.getD 0) else p.gasPrice.getD 0
+/-- the same with the base fee possibly absent (London not active): a dynamic-fee message is priced at its fee cap, as
+    go-ethereum's AsMessage does (`nilSafe`); before that repair the computation dereferenced the missing base fee (`none`) -/
+def PTx.effectiveGasPriceO (nilSafe : Bool) (p : PTx) : Option Nat → Option Nat
+  | some b => some (p.effectiveGasPrice b)
+  | none => if p.typ = 2 then (if nilSafe then some (p.gasFeeCap.getD 0) else none) else some (p.gasPrice.getD 0)
 def PTx.effectiveFee (p : PTx) (baseFee : Nat) : Nat := p.effectiveGasPrice baseFee * p.gas
 def PTx.effectiveCost (p : PTx) (baseFee : Nat) : Nat := p.effectiveFee baseFee + p.amount.getD 0
 
